@@ -115,3 +115,59 @@ def run(ctx):
         r = peel_calls(expr_operand(vf, vf["blocks"][bb]["t"][2][0]))
         okg = okg or (r[0] == "field" and r[2] == "refs" and peel(r[1]) == ("arg", 1))
     ctx.check("flow:verify:idroot", okg, "the identity root is read from the signed refs themselves", rules.where(vf), fn=vf)
+    canonical_complete(ctx)
+
+
+def canonical_complete(ctx):
+    """The signed text covers *every* retained ref: `Refs::canonical` walks the whole map (no filtering adaptor) and every
+    iteration appends both the oid and the name — a ref left out of the text is accepted without being signed."""
+    db = ctx.db
+    cn = db.one(r"^radicle::storage::refs::Refs::canonical$")
+    if cn is None:
+        ctx.violated("anchor:canonical", "Refs::canonical not found (anchor missing)")
+        return
+    from ..cfg import graph, nshow
+    g = graph(cn)
+    nexts = [(bb, t) for bb, t, c in db.calls(cn) if re.search(r"Iterator>?::next$", c.get("n") or "")]
+    ctx.floor("canonical:loop", len(nexts), 1, "iteration over the refs in Refs::canonical")
+    if len(nexts) != 1:
+        ctx.ob("req:canonical:complete", "inconclusive", "Refs::canonical does not have the shape of one loop over the refs (%d `next` calls)" % len(nexts), rules.where(cn), fn=cn)
+        return
+    hb = nexts[0][0]
+    # source of the iterator: the whole map
+    src = None
+    for bb, t, c in db.calls(cn):
+        if (c.get("n") or "").endswith("IntoIterator>::into_iter") or (c.get("n") or "").endswith("IntoIterator::into_iter"):
+            src = peel_calls(expr_operand(cn, t[2][0]))
+    s = nshow(src) if src is not None else ""
+    inner = r"(arg1|arg1\.0|<radicle::storage::refs::Refs as core::ops::deref::Deref>::deref\(arg1\))"
+    whole = re.match(r"^BTreeMap::iter\(%s\)$" % inner, s) is not None or re.match(r"^%s$" % inner, s) is not None
+    adaptors = re.findall(r"Iterator::(filter|filter_map|skip|skip_while|take|take_while|step_by)\b", s)
+    if adaptors:
+        ctx.violated("req:canonical:source", "Refs::canonical iterates a filtered view of the refs (%s): refs left out of the signed text are accepted unsigned" % adaptors[0],
+                     rules.where(cn), detail=s[:200], fn=cn)
+    elif whole:
+        ctx.held("req:canonical:source", "Refs::canonical iterates the whole refs map", rules.where(cn), fn=cn)
+    else:
+        ctx.ob("req:canonical:source", "inconclusive", "Refs::canonical iterates %s (not recognised as the whole map)" % s[:120], rules.where(cn), fn=cn)
+    some = rules.edges_where(db, cn, lambda f: f[0] == "variant" and f[4] and f[3] == "Some" and "::next(" in nshow(f[1]))
+    some = [e for e in some if e[0] in g.reach([hb])]
+
+    def pushes(what):
+        out = []
+        for bb, t, c in db.calls(cn):
+            n = c.get("n") or ""
+            if re.search(r"String::push_str$|fmt::Write::write_(str|fmt)$|Vec::extend_from_slice$|io::Write::write_all$", n) and len(t[2]) >= 2:
+                a = nshow(peel_calls(expr_operand(cn, t[2][1]), extra=("alloc::string::ToString::to_string",)))
+                if what in a:
+                    out.append(bb)
+        return out
+    for label, what in (("name", ".0.0"), ("oid", ".0.1")):
+        eff = pushes(what)
+        if not eff:
+            ctx.ob("req:canonical:complete:%s" % label, "inconclusive", "the place where the ref's %s is appended to the signed text was not recognised" % label, rules.where(cn), fn=cn)
+            continue
+        ok, nfeas, bad = rules.pass_check(db, cn, some, eff, [hb])
+        ctx.check("req:canonical:complete:%s" % label, ok and nfeas >= 1,
+                  "every ref of the map has its %s appended to the signed text (no iteration is skipped): a ref left out is accepted without being covered by the signature" % label,
+                  rules.where(cn, eff[0]), detail={"path": bad[:1]}, fn=cn)
